@@ -30,6 +30,7 @@ import (
 
 	"github.com/B1NARY-GR0UP/originium/pkg/bufferpool"
 	"github.com/B1NARY-GR0UP/originium/pkg/logger"
+	"github.com/B1NARY-GR0UP/originium/pkg/vhook"
 	"github.com/B1NARY-GR0UP/originium/types"
 	"github.com/B1NARY-GR0UP/originium/utils"
 )
@@ -51,7 +52,9 @@ func Create(dir string) (*WAL, error) {
 
 	name := path.Join(dir, fmt.Sprintf("wal-%s.log", version))
 
+	vhook.FS("create", name, 0)
 	file, err := os.OpenFile(name, os.O_CREATE|os.O_RDWR|os.O_APPEND, 0755)
+	vhook.FSDone("create", name, 0)
 	if err != nil {
 		return nil, err
 	}
@@ -102,9 +105,12 @@ func (w *WAL) Delete() error {
 	if err := w.close(); err != nil {
 		return err
 	}
+	vhook.FS("remove", w.path, 0)
 	if err := os.Remove(w.path); err != nil {
+		vhook.FSDone("remove", w.path, 0)
 		return err
 	}
+	vhook.FSDone("remove", w.path, 0)
 	return nil
 }
 
@@ -144,13 +150,19 @@ func (w *WAL) Write(entries ...types.Entry) error {
 		w.logger.Debugf("wal prepare entry: %+v", entry)
 	}
 
+	vhook.FS("write", w.path, buf.Len())
 	if err := binary.Write(w.fd, binary.LittleEndian, buf.Bytes()); err != nil {
+		vhook.FSDone("write", w.path, buf.Len())
 		return err
 	}
+	vhook.FSDone("write", w.path, buf.Len())
 
+	vhook.FS("sync", w.path, 0)
 	if err := w.fd.Sync(); err != nil {
+		vhook.FSDone("sync", w.path, 0)
 		return err
 	}
+	vhook.FSDone("sync", w.path, 0)
 	w.logger.Debugf("wal commit %v bytes of entries", buf.Len())
 	return nil
 }
